@@ -1,7 +1,838 @@
-//! C18 — not implemented yet.
+//! C18 — GFF3, GTF and BED lines round-trip, including escaping of reserved characters; the lazy
+//! line views return the same field values as the owned record built from them.
+//!
+//! For each format two inputs are read back and compared with the model, field by field:
+//!   (a) what the noodles writer produced from the model (`parse(write(x)) = x`);
+//!   (b) text the harness built from the format rules (`gen::text::*::render`, own escaping, other
+//!       hex case, raw UTF-8, CRLF, blank lines / comment lines) — so a writer and a reader that are
+//!       wrong in the same way do not cancel out.
+//! All discrepancies of a case are collected (`Fails`): a recorded finding in one column does not
+//! hide another column.
 
 use crate::engine::*;
+use crate::r#gen::text::{self, BedDoc, BedRec, FeatRec, FeatStrand, GffDirective, GffDoc, GffLine, GtfDoc, GtfLine};
+use bstr::BString;
+use noodles_bed as bed;
+use noodles_gff as gff;
+use noodles_gtf as gtf;
+use proptest::prelude::*;
+use serde::{Deserialize, Serialize};
+use std::io::{BufRead, BufReader};
+
+pub const SIG_SEQID: &str = "gff.seqid.not-decoded";
+pub const SIG_GFF_COMMENT: &str = "gff.comment.prefix-kept";
+pub const SIG_GTF_QUOTE: &str = "gtf.attr.escaped-quote-ends-string";
+
+fn bs(b: &[u8]) -> BString {
+    BString::from(b)
+}
+
+fn with_cap<'a>(bytes: &'a [u8], cap: u8) -> Box<dyn BufRead + 'a> {
+    if cap == 0 { Box::new(bytes) } else { Box::new(BufReader::with_capacity(cap as usize, bytes)) }
+}
+
+fn cap_strategy() -> BoxedStrategy<u8> {
+    prop_oneof![3 => Just(0u8), 1 => 1u8..=64].boxed()
+}
+
+// ------------------------------------------------------------------------------------------------
+// feature records (GFF3 and GTF share `gff::feature::RecordBuf`)
+
+/// The owned record as plain data (bytes, not lossy strings).
+#[derive(Debug, PartialEq, Clone)]
+struct Feat {
+    seqid: Vec<u8>,
+    source: Vec<u8>,
+    ty: Vec<u8>,
+    start: usize,
+    end: usize,
+    score: Option<f32>,
+    strand: FeatStrand,
+    phase: Option<u8>,
+    attrs: Vec<(Vec<u8>, Vec<Vec<u8>>)>,
+    /// per attribute: read back as an array (`true`) or a string
+    is_array: Vec<bool>,
+}
+
+fn phase_n(p: gff::feature::record::Phase) -> u8 {
+    use gff::feature::record::Phase as P;
+    match p {
+        P::Zero => 0,
+        P::One => 1,
+        P::Two => 2,
+    }
+}
+
+fn feat_of_buf(r: &gff::feature::RecordBuf) -> Feat {
+    use gff::feature::record_buf::attributes::field::Value;
+    Feat {
+        seqid: r.reference_sequence_name().to_vec(),
+        source: r.source().to_vec(),
+        ty: r.ty().to_vec(),
+        start: usize::from(r.start()),
+        end: usize::from(r.end()),
+        score: r.score(),
+        strand: FeatStrand::from_noodles(r.strand()),
+        phase: r.phase().map(phase_n),
+        attrs: r.attributes().as_ref().iter().map(|(k, v)| (k.to_vec(), v.iter().map(|x| x.to_vec()).collect())).collect(),
+        is_array: r.attributes().as_ref().values().map(|v| matches!(v, Value::Array(_))).collect(),
+    }
+}
+
+/// The same data through the accessors of any `feature::Record` (lazy line views implement it).
+fn feat_of_dyn(r: &dyn gff::feature::Record) -> Result<Feat, String> {
+    use gff::feature::record::attributes::field::Value;
+    let e = |what: &str, e: std::io::Error| format!("{what}: {e}");
+    let mut attrs = Vec::new();
+    let mut is_array = Vec::new();
+    let a = r.attributes();
+    for item in a.iter() {
+        let (k, v) = item.map_err(|x| e("attributes", x))?;
+        let vals: Result<Vec<Vec<u8>>, std::io::Error> = v.iter().map(|x| x.map(|c| c.to_vec())).collect();
+        is_array.push(matches!(v, Value::Array(_)));
+        attrs.push((k.to_vec(), vals.map_err(|x| e("attribute value", x))?));
+    }
+    Ok(Feat {
+        seqid: r.reference_sequence_name().to_vec(),
+        source: r.source().to_vec(),
+        ty: r.ty().to_vec(),
+        start: usize::from(r.feature_start().map_err(|x| e("start", x))?),
+        end: usize::from(r.feature_end().map_err(|x| e("end", x))?),
+        score: r.score().transpose().map_err(|x| e("score", x))?,
+        strand: FeatStrand::from_noodles(r.strand().map_err(|x| e("strand", x))?),
+        phase: r.phase().transpose().map_err(|x| e("phase", x))?.map(phase_n),
+        attrs,
+        is_array,
+    })
+}
+
+fn seqid_needs_escape(s: &str) -> bool {
+    s.bytes().any(|b| !(b.is_ascii_alphanumeric() || b".:^*$@!+_?-|".contains(&b)))
+}
+
+/// Compare a record read back with the model. `p` prefixes the signatures (`gff` / `gtf`),
+/// `seqid_known` marks the recorded GFF3 seqid class.
+fn compare_feat(p: &str, via: &str, i: usize, want: &FeatRec, got: &Feat, seqid_known: bool, fails: &mut Fails) {
+    let ctx = format!("{via} line #{i}");
+    if got.seqid != want.seqid.as_bytes() {
+        let sig = if seqid_known { SIG_SEQID.to_string() } else { format!("{p}.seqid") };
+        fails.push(sig, format!("{ctx}: seqid {:?} read back as {:?}", want.seqid, bs(&got.seqid)));
+    }
+    if got.source != want.source.as_bytes() {
+        fails.push(format!("{p}.source"), format!("{ctx}: source {:?} read back as {:?}", want.source, bs(&got.source)));
+    }
+    if got.ty != want.ty.as_bytes() {
+        fails.push(format!("{p}.type"), format!("{ctx}: type {:?} read back as {:?}", want.ty, bs(&got.ty)));
+    }
+    if got.start as u64 != want.start || got.end as u64 != want.end {
+        fails.push(format!("{p}.position"), format!("{ctx}: {}-{} read back as {}-{}", want.start, want.end, got.start, got.end));
+    }
+    if got.score != want.score() {
+        fails.push(format!("{p}.score"), format!("{ctx}: score {:?} read back as {:?}", want.score(), got.score));
+    }
+    if got.strand != want.strand {
+        fails.push(format!("{p}.strand"), format!("{ctx}: strand {:?} read back as {:?}", want.strand, got.strand));
+    }
+    if got.phase != want.phase {
+        fails.push(format!("{p}.phase"), format!("{ctx}: phase {:?} read back as {:?}", want.phase, got.phase));
+    }
+    // attributes: the same tag → values map (the owned type is an insertion-ordered map whose
+    // equality ignores tag order, so tag order is not asserted); values in order
+    if got.attrs.len() != want.attrs.len() {
+        fails.push(format!("{p}.attrs.count"), format!("{ctx}: {} attributes written, {} read: {:?} vs {:?}", want.attrs.len(), got.attrs.len(), want.attrs, show_attrs(&got.attrs)));
+        return;
+    }
+    for (k, vs) in &want.attrs {
+        match got.attrs.iter().position(|(gk, _)| gk == k.as_bytes()) {
+            None => fails.push(format!("{p}.attrs.tag"), format!("{ctx}: tag {k:?} not found among {:?}", show_attrs(&got.attrs))),
+            Some(j) => {
+                let gv = &got.attrs[j].1;
+                let same: bool = gv.len() == vs.len() && gv.iter().zip(vs).all(|(a, b)| a == b.as_bytes());
+                if !same {
+                    let mut sorted_g: Vec<&[u8]> = gv.iter().map(|v| &v[..]).collect();
+                    let mut sorted_w: Vec<&[u8]> = vs.iter().map(|v| v.as_bytes()).collect();
+                    sorted_g.sort();
+                    sorted_w.sort();
+                    let sig = if sorted_g == sorted_w { "attrs.value-order" } else { "attrs.value" };
+                    fails.push(format!("{p}.{sig}"), format!("{ctx}: tag {k:?} values {vs:?} read back as {:?}", gv.iter().map(|v| bs(v)).collect::<Vec<_>>()));
+                } else if got.is_array[j] != (vs.len() >= 2) {
+                    fails.push(format!("{p}.attrs.kind"), format!("{ctx}: tag {k:?} with {} value(s) read back as {}", vs.len(), if got.is_array[j] { "an array" } else { "a string" }));
+                }
+            }
+        }
+    }
+}
+
+fn show_attrs(a: &[(Vec<u8>, Vec<Vec<u8>>)]) -> Vec<(BString, Vec<BString>)> {
+    a.iter().map(|(k, v)| (bs(k), v.iter().map(|x| bs(x)).collect())).collect()
+}
+
+// ------------------------------------------------------------------------------------------------
+// GFF3
+
+#[derive(Clone, Debug, Serialize, Deserialize)]
+pub struct GffCase {
+    pub doc: GffDoc,
+    pub cap: u8,
+    /// harness-built text: CRLF terminators
+    pub crlf: bool,
+    /// harness-built text: an empty line after every n-th line
+    pub blank_every: Option<u8>,
+}
+
+fn gff_strategy(tier: Tier) -> BoxedStrategy<GffCase> {
+    // One document in ten may carry seqids that need escaping, one in ten comment lines: both are
+    // recorded findings of the pinned tree, and the rest of the search must go on behind them.
+    let doc = (prop_oneof![9 => Just(true), 1 => Just(false)], prop_oneof![9 => Just(false), 1 => Just(true)]).prop_flat_map(move |(plain, comments)| text::gff_doc(tier.pick(6, 10), plain, comments));
+    (doc, cap_strategy(), any::<bool>(), proptest::option::weighted(0.3, 1u8..=3)).prop_map(|(doc, cap, crlf, blank_every)| GffCase { doc, cap, crlf, blank_every }).boxed()
+}
+
+fn compare_directive(via: &str, i: usize, want: &GffDirective, got: &gff::DirectiveBuf, fails: &mut Fails) {
+    use gff::directive_buf::{Value, value};
+    let (k, v) = want.key_value();
+    let ctx = format!("{via} line #{i}");
+    if got.key() != k.as_bytes() {
+        fails.push("gff.directive.key", format!("{ctx}: key {k:?} read back as {:?}", got.key()));
+        return;
+    }
+    // the reader hands every value back as text; a typed value written must parse back to itself
+    let text: Option<Vec<u8>> = match got.value() {
+        None => None,
+        Some(Value::String(s)) => Some(s.to_vec()),
+        Some(Value::GffVersion(x)) => Some(x.to_string().into_bytes()),
+        Some(Value::SequenceRegion(x)) => Some(x.to_string().into_bytes()),
+        Some(Value::GenomeBuild(x)) => Some(x.to_string().into_bytes()),
+    };
+    if text.as_deref() != v.as_ref().map(|s| s.as_bytes()) {
+        fails.push("gff.directive.value", format!("{ctx}: ##{k} value {v:?} read back as {:?}", text.as_ref().map(|t| bs(t))));
+        return;
+    }
+    let Some(t) = text.and_then(|t| String::from_utf8(t).ok()) else { return };
+    let Ok(wantbuf) = want.to_noodles() else { return };
+    let typed_equal = match wantbuf.value() {
+        Some(Value::GffVersion(x)) => t.parse::<value::GffVersion>().ok().as_ref() == Some(x),
+        Some(Value::SequenceRegion(x)) => t.parse::<value::SequenceRegion>().ok().as_ref() == Some(x),
+        Some(Value::GenomeBuild(x)) => t.parse::<value::GenomeBuild>().ok().as_ref() == Some(x),
+        _ => true,
+    };
+    if !typed_equal {
+        fails.push("gff.directive.typed", format!("{ctx}: ##{k} {t:?} does not parse back to the value written ({:?})", wantbuf.value()));
+    }
+}
+
+/// Read `bytes` with `line_bufs()` and with the lazy `lines()`, compare both with the model.
+fn gff_read_and_compare(via: &str, c: &GffCase, bytes: &[u8], fails: &mut Fails) {
+    let mut reader = gff::io::Reader::new(with_cap(bytes, c.cap));
+    let owned: Vec<Result<gff::LineBuf, String>> = reader.line_bufs().map(|r| r.map_err(|e| e.to_string())).collect();
+    if owned.len() != c.doc.lines.len() {
+        fails.push("gff.line-count", format!("{via}: {} lines written, {} read ({:?})", c.doc.lines.len(), owned.len(), bs(&bytes[..bytes.len().min(300)])));
+        return;
+    }
+    let mut reader2 = gff::io::Reader::new(with_cap(bytes, c.cap));
+    let lazy: Vec<Result<gff::Line, String>> = reader2.lines().map(|r| r.map_err(|e| e.to_string())).collect();
+    if lazy.len() != owned.len() {
+        fails.push("gff.lazy.line-count", format!("{via}: lines() yields {} lines, line_bufs() {}", lazy.len(), owned.len()));
+    }
+    for (i, (want, got)) in c.doc.lines.iter().zip(&owned).enumerate() {
+        let got = match got {
+            Ok(g) => g,
+            Err(e) => {
+                fails.push("gff.read.error", format!("{via} line #{i} ({}): {e}", want.canonical_text()));
+                continue;
+            }
+        };
+        match (want, got) {
+            (GffLine::Record(w), gff::LineBuf::Record(g)) => {
+                let gf = feat_of_buf(g);
+                compare_feat("gff", via, i, w, &gf, seqid_needs_escape(&w.seqid), fails);
+                // lazy view of the same line
+                if let Some(Ok(line)) = lazy.get(i) {
+                    match line.as_record() {
+                        Some(Ok(rec)) => {
+                            match feat_of_dyn(&rec) {
+                                Ok(lf) => {
+                                    if lf != gf {
+                                        fails.push("gff.lazy.differs", format!("{via} line #{i}: lazy accessors give {lf:?}, owned record {gf:?}"));
+                                    }
+                                }
+                                Err(e) => fails.push("gff.lazy.error", format!("{via} line #{i}: lazy accessor fails where the owned record was built: {e}")),
+                            }
+                            // inherent accessors and keyed lookup
+                            let a = rec.attributes();
+                            if a.is_empty() != gf.attrs.is_empty() {
+                                fails.push("gff.lazy.attributes-is-empty", format!("{via} line #{i}: is_empty() = {} with {} attributes", a.is_empty(), gf.attrs.len()));
+                            }
+                            for (k, vs) in &gf.attrs {
+                                if gf.attrs.iter().filter(|(k2, _)| k2 == k).count() != 1 {
+                                    continue;
+                                }
+                                let got: Option<Vec<Vec<u8>>> = match a.get(k) {
+                                    Some(Ok(gff::record::attributes::field::Value::String(s))) => Some(vec![s.to_vec()]),
+                                    Some(Ok(gff::record::attributes::field::Value::Array(arr))) => Some(arr.iter().map(|x| x.to_vec()).collect()),
+                                    _ => None,
+                                };
+                                if got.as_ref() != Some(vs) {
+                                    fails.push("gff.lazy.attributes-get", format!("{via} line #{i}: attributes().get({:?}) = {:?}, iteration gives {:?}", bs(k), got.map(|g| g.iter().map(|x| bs(x)).collect::<Vec<_>>()), vs.iter().map(|x| bs(x)).collect::<Vec<_>>()));
+                                }
+                            }
+                            match gff::feature::RecordBuf::try_from_feature_record(&rec) {
+                                Ok(rb) => {
+                                    if rb != *g {
+                                        fails.push("gff.lazy.differs", format!("{via} line #{i}: RecordBuf built from the lazy record {rb:?} differs from line_bufs() {g:?}"));
+                                    }
+                                }
+                                Err(e) => fails.push("gff.lazy.error", format!("{via} line #{i}: try_from_feature_record: {e}")),
+                            }
+                        }
+                        Some(Err(e)) => fails.push("gff.lazy.error", format!("{via} line #{i}: as_record: {e}")),
+                        None => fails.push("gff.lazy.kind", format!("{via} line #{i}: lazy line is {:?}, owned line is a record", line.kind())),
+                    }
+                }
+            }
+            (GffLine::Directive(w), gff::LineBuf::Directive(g)) => {
+                compare_directive(via, i, w, g, fails);
+                if let Some(Ok(line)) = lazy.get(i) {
+                    match line.as_directive() {
+                        Some(d) => {
+                            if d.key() != g.key() || d.value().map(|v| v.to_vec()) != g.value().and_then(|v| if let gff::directive_buf::Value::String(s) = v { Some(s.to_vec()) } else { None }) {
+                                fails.push("gff.lazy.differs", format!("{via} line #{i}: lazy directive ({:?}, {:?}) differs from owned {g:?}", d.key(), d.value()));
+                            }
+                        }
+                        None => fails.push("gff.lazy.kind", format!("{via} line #{i}: lazy line is {:?}, owned line is a directive", line.kind())),
+                    }
+                }
+            }
+            (GffLine::Comment(w), gff::LineBuf::Comment(g)) => {
+                if g.as_slice() != w.as_bytes() {
+                    let mut prefixed = b"#".to_vec();
+                    prefixed.extend_from_slice(w.as_bytes());
+                    let sig = if g.as_slice() == &prefixed[..] { SIG_GFF_COMMENT } else { "gff.comment" };
+                    fails.push(sig, format!("{via} line #{i}: comment {w:?} read back as {g:?}"));
+                }
+                if let Some(Ok(line)) = lazy.get(i) {
+                    if line.as_comment().map(|s| s.to_vec()) != Some(w.as_bytes().to_vec()) {
+                        fails.push("gff.lazy.comment", format!("{via} line #{i}: Line::as_comment() = {:?} for comment {w:?}", line.as_comment()));
+                    }
+                }
+            }
+            (w, g) => fails.push("gff.line-kind", format!("{via} line #{i}: wrote {}, read {g:?}", w.canonical_text())),
+        }
+    }
+    // record_bufs(): the records only, in order
+    let mut reader3 = gff::io::Reader::new(with_cap(bytes, c.cap));
+    let recs: Vec<Result<gff::feature::RecordBuf, String>> = reader3.record_bufs().map(|r| r.map_err(|e| e.to_string())).collect();
+    let owned_recs: Vec<&gff::feature::RecordBuf> = owned.iter().filter_map(|l| if let Ok(gff::LineBuf::Record(r)) = l { Some(r) } else { None }).collect();
+    let all_ok = owned.iter().all(|l| l.is_ok());
+    if all_ok && (recs.len() != owned_recs.len() || recs.iter().zip(&owned_recs).any(|(a, b)| a.as_ref().ok() != Some(*b))) {
+        fails.push("gff.record-bufs.differs", format!("{via}: record_bufs() yields {} records, line_bufs() {} record lines (or they differ)", recs.len(), owned_recs.len()));
+    }
+}
+
+/// The statement's output half: reserved characters are percent-encoded on output. Checked on the
+/// structure of the written line, independently of the reader: nine tab-separated columns; the
+/// seqid column holds only `[a-zA-Z0-9.:^*$@!+_?-|]` and `%XX`; the attribute column holds no raw
+/// control character or `&`, exactly the structural `;` `=` `,` the model implies, and every `%`
+/// starts an escape. (`source`/`type` are written raw by design of the pinned tree — not asserted.)
+fn gff_written_form(i: usize, want: &FeatRec, line: &[u8], fails: &mut Fails) {
+    let cols: Vec<&[u8]> = line.split(|b| *b == b'\t').collect();
+    if cols.len() != 9 {
+        fails.push("gff.write.columns", format!("line #{i}: {} tab-separated columns in {:?}", cols.len(), bs(line)));
+        return;
+    }
+    let escapes_ok = |col: &[u8]| {
+        let mut k = 0;
+        while k < col.len() {
+            if col[k] == b'%' {
+                if !(col.get(k + 1).is_some_and(|b| b.is_ascii_hexdigit()) && col.get(k + 2).is_some_and(|b| b.is_ascii_hexdigit())) {
+                    return false;
+                }
+                k += 3;
+            } else {
+                k += 1;
+            }
+        }
+        true
+    };
+    let seqid = cols[0];
+    if !seqid.iter().all(|b| b.is_ascii_alphanumeric() || b".:^*$@!+_?-|%".contains(b)) || !escapes_ok(seqid) {
+        fails.push("gff.write.seqid-unescaped", format!("line #{i}: seqid {:?} written as {:?}", want.seqid, bs(seqid)));
+    }
+    let a = cols[8];
+    if want.attrs.is_empty() {
+        if a != b"." {
+            fails.push("gff.write.attr-form", format!("line #{i}: no attributes written as {:?}", bs(a)));
+        }
+        return;
+    }
+    let count = |ch: u8| a.iter().filter(|b| **b == ch).count();
+    let n = want.attrs.len();
+    let commas: usize = want.attrs.iter().map(|(_, vs)| vs.len() - 1).sum();
+    let raw_reserved = a.iter().any(|b| *b < 0x20 || *b == 0x7f || *b == b'&');
+    if raw_reserved || count(b';') != n - 1 || count(b'=') != n || count(b',') != commas || !escapes_ok(a) {
+        fails.push("gff.write.attr-unescaped", format!("line #{i}: attributes {:?} written as {:?}: a reserved character is not percent-encoded (or the structure is off)", want.attrs, bs(a)));
+    }
+}
+
+fn gff_check(c: &GffCase) -> Verdict {
+    let mut fails = Fails::new();
+    let recs: Vec<&FeatRec> = c.doc.records().collect();
+    let mut pass = Pass::new(false, key_of(c));
+
+    // (a) through the noodles writer. A CDS without phase is documented as rejected; it is
+    // generated never, so every document must be written.
+    match c.doc.write_with_noodles() {
+        Err(e) => fails.push("gff.write.error", format!("gff::io::Writer rejects {:?}: {e}", c.doc.lines.iter().map(|l| l.canonical_text()).collect::<Vec<_>>())),
+        Ok(bytes) => {
+            let nlines = bytes.iter().filter(|b| **b == b'\n').count();
+            if nlines != c.doc.lines.len() {
+                fails.push("gff.write.line-structure", format!("{} lines written as {nlines} text lines: a field carried a raw line terminator: {:?}", c.doc.lines.len(), bs(&bytes[..bytes.len().min(300)])));
+            } else {
+                for (i, (l, text)) in c.doc.lines.iter().zip(bytes.split(|b| *b == b'\n')).enumerate() {
+                    if let GffLine::Record(r) = l {
+                        gff_written_form(i, r, text, &mut fails);
+                    }
+                }
+                gff_read_and_compare("noodles-written", c, &bytes, &mut fails);
+            }
+        }
+    }
+    // (b) harness-built text
+    let text = c.doc.render(c.crlf, c.blank_every.map(|n| n as usize));
+    gff_read_and_compare("harness-rendered", c, &text, &mut fails);
+
+    if fails.is_empty() {
+        let (t, e) = text::gff_read_transcript(&text[..]);
+        let want: Vec<String> = c.doc.lines.iter().map(|l| l.canonical_text()).collect();
+        if e.is_some() || t != want {
+            fails.push("c18.harness.transcript", format!("gff_read_transcript = {t:?} / {e:?}, canonical texts {want:?}"));
+        }
+    }
+
+    let reserved = |s: &str| s.chars().any(|ch| "\t\n\r;=&,%".contains(ch));
+    let any_attr = |f: &dyn Fn(&str) -> bool| recs.iter().any(|r| r.attrs.iter().any(|(k, vs)| f(k) || vs.iter().any(|v| f(v))));
+    let escapes = any_attr(&reserved);
+    let multi = recs.iter().any(|r| r.attrs.iter().any(|(_, vs)| vs.len() >= 2));
+    pass.nontrivial = escapes || multi;
+    pass = pass
+        .label_if(escapes, "attr-reserved-char")
+        .label_if(any_attr(&|s: &str| s.contains(',')), "attr-comma")
+        .label_if(any_attr(&|s: &str| s.contains('&')), "attr-ampersand")
+        .label_if(any_attr(&|s: &str| s.contains('%')), "attr-percent")
+        .label_if(any_attr(&|s: &str| s.contains('\n') || s.contains('\r')), "attr-newline")
+        .label_if(any_attr(&|s: &str| s.contains('\t')), "attr-tab")
+        .label_if(any_attr(&|s: &str| !s.is_ascii()), "attr-non-ascii")
+        .label_if(any_attr(&|s: &str| s.starts_with('>') || s.starts_with('#')), "attr-leading->#")
+        .label_if(any_attr(&|s: &str| s.is_empty()), "attr-empty-string")
+        .label_if(multi, "attr-multi-valued")
+        .label_if(recs.iter().any(|r| r.attrs.is_empty()), "no-attributes")
+        .label_if(recs.iter().any(|r| seqid_needs_escape(&r.seqid)), "seqid-needs-escape")
+        .label_if(recs.iter().any(|r| r.seqid.is_empty() || r.source.is_empty() || r.ty.is_empty()), "empty-plain-column")
+        .label_if(recs.iter().any(|r| r.ty == "CDS"), "type-CDS")
+        .label_if(recs.iter().any(|r| r.score_bits.is_none()), "score-missing")
+        .label_if(recs.iter().any(|r| r.score_bits.is_some()), "score-present")
+        .label_if(recs.iter().any(|r| r.phase.is_some()), "phase-present")
+        .label_if(recs.iter().any(|r| r.strand == FeatStrand::Unknown), "strand-unknown")
+        .label_if(recs.iter().any(|r| r.end > u32::MAX as u64), "position>2^32")
+        .label_if(c.doc.lines.iter().any(|l| matches!(l, GffLine::Directive(_))), "directive")
+        .label_if(c.doc.lines.iter().any(|l| matches!(l, GffLine::Directive(GffDirective::Version { .. } | GffDirective::SequenceRegion { .. } | GffDirective::GenomeBuild { .. }))), "typed-directive")
+        .label_if(c.doc.lines.iter().any(|l| matches!(l, GffLine::Comment(_))), "comment")
+        .label_if(c.cap != 0 && c.cap <= 3, "cap<=3");
+    fails.finish(pass.label("passed-without-known-finding"))
+}
+
+// ------------------------------------------------------------------------------------------------
+// GTF
+
+#[derive(Clone, Debug, Serialize, Deserialize)]
+pub struct GtfCase {
+    pub doc: GtfDoc,
+    pub cap: u8,
+    /// harness-built text: CRLF terminators
+    pub crlf: bool,
+    /// harness-built text: all-digit values without quotes
+    pub bare_numbers: bool,
+}
+
+fn gtf_strategy(tier: Tier) -> BoxedStrategy<GtfCase> {
+    // `"` inside a value is a recorded finding (the reader ends the string at the escaped quote):
+    // seven documents in eight are generated without it so that the search goes on behind it.
+    (prop_oneof![7 => Just(false), 1 => Just(true)].prop_flat_map(move |quotes| text::gtf_doc(tier.pick(6, 10), quotes)), cap_strategy(), any::<bool>(), any::<bool>())
+        .prop_map(|(doc, cap, crlf, bare_numbers)| GtfCase { doc, cap, crlf, bare_numbers })
+        .boxed()
+}
+
+fn has_quote(r: &FeatRec) -> bool {
+    r.attrs.iter().any(|(_, vs)| vs.iter().any(|v| v.contains('"')))
+}
+
+enum Lost {
+    Error(String),
+    Panic(String, String),
+}
+
+fn gtf_read_and_compare(via: &str, c: &GtfCase, bytes: &[u8], fails: &mut Fails) {
+    // The lazy GTF record's `feature::Record::attributes` unwraps the attribute parse, so a line
+    // can panic inside `line_bufs()`: catch per line and keep reading.
+    let mut reader = gtf::io::Reader::new(with_cap(bytes, c.cap));
+    let mut it = reader.line_bufs();
+    let mut owned: Vec<Result<gtf::LineBuf, Lost>> = Vec::new();
+    while owned.len() <= c.doc.lines.len() + 4 {
+        match crate::engine::panics::catch(std::panic::AssertUnwindSafe(|| it.next())) {
+            Ok(None) => break,
+            Ok(Some(r)) => owned.push(r.map_err(|e| Lost::Error(e.to_string()))),
+            Err(p) => owned.push(Err(Lost::Panic(p.sig(), p.describe()))),
+        }
+    }
+    drop(it);
+    if owned.len() != c.doc.lines.len() {
+        fails.push("gtf.line-count", format!("{via}: {} lines written, {} read ({:?})", c.doc.lines.len(), owned.len(), bs(&bytes[..bytes.len().min(300)])));
+        return;
+    }
+    let mut reader2 = gtf::io::Reader::new(with_cap(bytes, c.cap));
+    let lazy: Vec<Result<gtf::Line, String>> = reader2.lines().map(|r| r.map_err(|e| e.to_string())).collect();
+    for (i, (want, got)) in c.doc.lines.iter().zip(&owned).enumerate() {
+        let quote_class = matches!(want, GtfLine::Record(r) if has_quote(r));
+        let got = match got {
+            Ok(g) => g,
+            Err(Lost::Error(e)) => {
+                fails.push(if quote_class { SIG_GTF_QUOTE } else { "gtf.read.error" }, format!("{via} line #{i} ({}): {e}", want.canonical_text()));
+                continue;
+            }
+            Err(Lost::Panic(sig, desc)) => {
+                fails.push(if quote_class { format!("{SIG_GTF_QUOTE}/{sig}") } else { sig.clone() }, format!("{via} line #{i} ({}): {desc}", want.canonical_text()));
+                continue;
+            }
+        };
+        match (want, got) {
+            (GtfLine::Record(w), gtf::LineBuf::Record(g)) => {
+                let gf = feat_of_buf(g);
+                if quote_class {
+                    // compare the columns the finding cannot touch, and the attributes under its signature
+                    let mut sub = Fails::new();
+                    compare_feat("gtf", via, i, w, &gf, false, &mut sub);
+                    for f in sub.0 {
+                        let sig = if f.sig.starts_with("gtf.attrs") { SIG_GTF_QUOTE.to_string() } else { f.sig };
+                        fails.push(sig, f.msg);
+                    }
+                } else {
+                    compare_feat("gtf", via, i, w, &gf, false, fails);
+                }
+                if let Some(Ok(line)) = lazy.get(i) {
+                    match line.as_record() {
+                        Some(Ok(rec)) => {
+                            // inherent lazy accessors (the trait impl unwraps the attribute parse)
+                            let attrs = rec.attributes();
+                            let lazy_attrs: Result<Vec<(Vec<u8>, Vec<Vec<u8>>)>, String> = match &attrs {
+                                Ok(a) => a.iter().map(|item| item.map(|(k, v)| (k.to_vec(), v.iter().map(|x| x.to_vec()).collect())).map_err(|e| e.to_string())).collect(),
+                                Err(e) => Err(e.to_string()),
+                            };
+                            let scalar = (|| -> Result<_, std::io::Error> {
+                                Ok((rec.reference_sequence_name().to_vec(), rec.source().to_vec(), rec.ty().to_vec(), usize::from(rec.start()?), usize::from(rec.end()?), rec.score().transpose()?, FeatStrand::from_noodles(rec.strand()?), rec.phase().transpose()?.map(phase_n)))
+                            })();
+                            match (scalar, lazy_attrs) {
+                                (Ok(s), Ok(a)) => {
+                                    let same = s == (gf.seqid.clone(), gf.source.clone(), gf.ty.clone(), gf.start, gf.end, gf.score, gf.strand, gf.phase) && a == gf.attrs;
+                                    if !same {
+                                        fails.push("gtf.lazy.differs", format!("{via} line #{i}: lazy accessors give {s:?} {:?}, owned record {gf:?}", show_attrs(&a)));
+                                    }
+                                }
+                                (s, a) => fails.push("gtf.lazy.error", format!("{via} line #{i}: lazy accessor fails where the owned record was built: {:?} {:?}", s.err().map(|e| e.to_string()), a.err())),
+                            }
+                        }
+                        Some(Err(e)) => fails.push("gtf.lazy.error", format!("{via} line #{i}: as_record: {e}")),
+                        None => fails.push("gtf.lazy.kind", format!("{via} line #{i}: lazy line is a comment, owned line is a record")),
+                    }
+                }
+            }
+            (GtfLine::Comment(w), gtf::LineBuf::Comment(g)) => {
+                if g.as_slice() != w.as_bytes() {
+                    fails.push("gtf.comment", format!("{via} line #{i}: comment {w:?} read back as {g:?}"));
+                }
+            }
+            (w, g) => fails.push("gtf.line-kind", format!("{via} line #{i}: wrote {}, read {g:?}", w.canonical_text())),
+        }
+    }
+}
+
+fn gtf_check(c: &GtfCase) -> Verdict {
+    let mut fails = Fails::new();
+    match c.doc.write_with_noodles() {
+        Err(e) => fails.push("gtf.write.error", format!("gtf::io::Writer rejects {:?}: {e}", c.doc.lines.iter().map(|l| l.canonical_text()).collect::<Vec<_>>())),
+        Ok(bytes) => gtf_read_and_compare("noodles-written", c, &bytes, &mut fails),
+    }
+    let text = c.doc.render_with(c.crlf, c.bare_numbers);
+    gtf_read_and_compare("harness-rendered", c, &text, &mut fails);
+    if fails.is_empty() && !c.doc.records().any(has_quote) {
+        let (t, e) = text::gtf_read_transcript(&text[..]);
+        let want: Vec<String> = c.doc.lines.iter().map(|l| l.canonical_text()).collect();
+        if e.is_some() || t != want {
+            fails.push("c18.harness.transcript", format!("gtf_read_transcript = {t:?} / {e:?}, canonical texts {want:?}"));
+        }
+    }
+
+    let recs: Vec<&FeatRec> = c.doc.records().collect();
+    let any_val = |f: &dyn Fn(&str) -> bool| recs.iter().any(|r| r.attrs.iter().any(|(_, vs)| vs.iter().any(|v| f(v))));
+    let bslash = any_val(&|s: &str| s.contains('\\'));
+    let quote = any_val(&|s: &str| s.contains('"'));
+    let multi = recs.iter().any(|r| r.attrs.iter().any(|(_, vs)| vs.len() >= 2));
+    let pass = Pass::new(bslash || quote || multi, key_of(c))
+        .label_if(bslash, "value-backslash")
+        .label_if(quote, "value-quote")
+        .label_if(any_val(&|s: &str| s.ends_with('\\')), "value-trailing-backslash")
+        .label_if(any_val(&|s: &str| s.contains(';')), "value-semicolon")
+        .label_if(any_val(&|s: &str| s.contains(' ')), "value-space")
+        .label_if(any_val(&|s: &str| s.is_empty()), "value-empty")
+        .label_if(any_val(&|s: &str| !s.is_ascii()), "value-non-ascii")
+        .label_if(multi, "attr-multi-valued")
+        .label_if(recs.iter().any(|r| r.attrs.is_empty()), "no-attributes")
+        .label_if(recs.iter().any(|r| r.score_bits.is_none()), "score-missing")
+        .label_if(recs.iter().any(|r| r.phase.is_some()), "phase-present")
+        .label_if(recs.iter().any(|r| r.source.is_empty() || r.ty.is_empty()), "empty-plain-column")
+        .label_if(c.doc.lines.iter().any(|l| matches!(l, GtfLine::Comment(_))), "comment")
+        .label_if(c.bare_numbers && any_val(&|s: &str| !s.is_empty() && s.bytes().all(|b| b.is_ascii_digit())), "bare-number-value")
+        .label_if(c.cap != 0 && c.cap <= 3, "cap<=3");
+    fails.finish(pass.label("passed-without-known-finding"))
+}
+
+// ------------------------------------------------------------------------------------------------
+// BED
+
+#[derive(Clone, Debug, Serialize, Deserialize)]
+pub struct BedCase {
+    pub doc: BedDoc,
+    /// standard-field count the reader is instantiated with (≤ doc.n: the remaining standard
+    /// columns must then come back as other fields)
+    pub read_n: u8,
+    pub cap: u8,
+    pub crlf: bool,
+}
+
+fn bed_strategy(tier: Tier) -> BoxedStrategy<BedCase> {
+    (text::bed_doc(tier.pick(6, 10)), any::<u16>(), cap_strategy(), any::<bool>())
+        .prop_map(|(doc, sel, cap, crlf)| {
+            // mostly the same arity as written
+            let read_n = if sel % 4 == 0 { 3 + pick_idx(sel, (doc.n - 2) as usize) as u8 } else { doc.n };
+            BedCase { doc, read_n, cap, crlf }
+        })
+        .boxed()
+}
+
+/// What one lazily read BED line exposes, as plain data.
+#[derive(Debug, Clone, PartialEq)]
+struct BedSeen {
+    chrom: Vec<u8>,
+    start: usize,
+    end: Option<usize>,
+    name: Option<Option<Vec<u8>>>,
+    score: Option<u16>,
+    strand: Option<Option<bool>>,
+    other: Vec<Vec<u8>>,
+}
+
+fn strand_b(s: bed::feature::record::Strand) -> bool {
+    matches!(s, bed::feature::record::Strand::Forward)
+}
+
+fn other_texts(o: &dyn bed::feature::record::OtherFields) -> Vec<Vec<u8>> {
+    use bed::feature::record::other_fields::Value as V;
+    o.iter()
+        .map(|v| match v {
+            V::String(s) => s.to_vec(),
+            V::Int64(n) => n.to_string().into_bytes(),
+            V::UInt64(n) => n.to_string().into_bytes(),
+            V::Float64(n) => n.to_string().into_bytes(),
+            V::Character(c) => vec![c],
+        })
+        .collect()
+}
+
+macro_rules! bed_reader {
+    ($fname:ident, $n:literal, |$rec:ident| $name:expr, $score:expr, $strand:expr, |$buf:ident| $bname:expr, $bscore:expr, $bstrand:expr) => {
+        /// (lazy accessors, owned record built from the lazy one) per line
+        fn $fname(bytes: &[u8], cap: u8) -> Result<Vec<(BedSeen, BedSeen)>, String> {
+            let mut reader = bed::io::Reader::<$n, _>::new(with_cap(bytes, cap));
+            let mut $rec = bed::Record::<$n>::default();
+            let mut out = Vec::new();
+            loop {
+                match reader.read_record(&mut $rec) {
+                    Ok(0) => break,
+                    Ok(_) => {}
+                    Err(e) => return Err(format!("read_record (line #{}): {e}", out.len())),
+                }
+                let e = |what: &str, e: std::io::Error| format!("line #{}: {what}: {e}", out.len());
+                let lazy = BedSeen {
+                    chrom: $rec.reference_sequence_name().to_vec(),
+                    start: usize::from($rec.feature_start().map_err(|x| e("feature_start", x))?),
+                    end: $rec.feature_end().transpose().map_err(|x| e("feature_end", x))?.map(usize::from),
+                    name: $name,
+                    score: $score.map_err(|x| e("score", x))?,
+                    strand: $strand.map_err(|x| e("strand", x))?,
+                    other: $rec.other_fields().iter().map(|s| s.to_vec()).collect(),
+                };
+                let $buf = bed::feature::RecordBuf::<$n>::try_from_feature_record(&$rec).map_err(|x| e("try_from_feature_record", x))?;
+                let owned = BedSeen {
+                    chrom: $buf.reference_sequence_name().to_vec(),
+                    start: usize::from($buf.feature_start()),
+                    end: $buf.feature_end().map(usize::from),
+                    name: $bname,
+                    score: $bscore,
+                    strand: $bstrand,
+                    other: other_texts(&$buf.other_fields()),
+                };
+                if $buf.standard_field_count() != $n || $rec.standard_field_count() != $n {
+                    return Err(format!("standard_field_count() is not {}", $n));
+                }
+                out.push((lazy, owned));
+            }
+            Ok(out)
+        }
+    };
+}
+
+type IoR<T> = Result<T, std::io::Error>;
+
+bed_reader!(read_bed3, 3, |r| None, IoR::Ok(None), IoR::Ok(None), |b| None, None, None);
+bed_reader!(read_bed4, 4, |r| Some(r.name().map(|s| s.to_vec())), IoR::Ok(None), IoR::Ok(None), |b| Some(b.name().map(|s| s.to_vec())), None, None);
+bed_reader!(read_bed5, 5, |r| Some(r.name().map(|s| s.to_vec())), r.score().map(Some), IoR::Ok(None), |b| Some(b.name().map(|s| s.to_vec())), Some(b.score()), None);
+bed_reader!(read_bed6, 6, |r| Some(r.name().map(|s| s.to_vec())), r.score().map(Some), r.strand().map(|s| Some(s.map(strand_b))), |b| Some(b.name().map(|s| s.to_vec())), Some(b.score()), Some(b.strand().map(strand_b)));
+
+fn bed_expected(r: &BedRec, n: u8, read_n: u8) -> BedSeen {
+    let cols = r.columns(n);
+    BedSeen {
+        chrom: r.chrom.as_bytes().to_vec(),
+        start: r.start as usize,
+        end: r.end.map(|e| e as usize),
+        name: if read_n >= 4 { Some(r.name.as_ref().map(|s| s.as_bytes().to_vec())) } else { None },
+        score: if read_n >= 5 { Some(r.score) } else { None },
+        strand: if read_n >= 6 { Some(r.strand) } else { None },
+        other: cols[read_n as usize..].iter().map(|s| s.as_bytes().to_vec()).collect(),
+    }
+}
+
+fn bed_read_and_compare(via: &str, c: &BedCase, bytes: &[u8], fails: &mut Fails) {
+    let seen = crate::engine::panics::catch(|| match c.read_n {
+        3 => read_bed3(bytes, c.cap),
+        4 => read_bed4(bytes, c.cap),
+        5 => read_bed5(bytes, c.cap),
+        _ => read_bed6(bytes, c.cap),
+    });
+    let seen = match seen {
+        Ok(Ok(s)) => s,
+        Ok(Err(e)) => {
+            fails.push("bed.read.error", format!("{via} (BED{} read as BED{}): {e}; text {:?}", c.doc.n, c.read_n, bs(&bytes[..bytes.len().min(300)])));
+            return;
+        }
+        Err(p) => {
+            fails.push(p.sig(), format!("{via}: {}", p.describe()));
+            return;
+        }
+    };
+    if seen.len() != c.doc.records.len() {
+        fails.push("bed.record-count", format!("{via}: {} records written, {} read", c.doc.records.len(), seen.len()));
+        return;
+    }
+    for (i, (want, (lazy, owned))) in c.doc.records.iter().zip(&seen).enumerate() {
+        let exp = bed_expected(want, c.doc.n, c.read_n);
+        if *lazy != exp {
+            let sig = if lazy.chrom != exp.chrom {
+                "bed.chrom"
+            } else if lazy.start != exp.start || lazy.end != exp.end {
+                "bed.coordinates"
+            } else if lazy.name != exp.name {
+                "bed.name"
+            } else if lazy.score != exp.score {
+                "bed.score"
+            } else if lazy.strand != exp.strand {
+                "bed.strand"
+            } else if lazy.other.len() != exp.other.len() {
+                "bed.other-fields.count"
+            } else {
+                "bed.other-fields.value"
+            };
+            fails.push(sig, format!("{via} line #{i} (BED{} read as BED{}): wrote {}, read {}", c.doc.n, c.read_n, show_seen(&exp), show_seen(lazy)));
+        }
+        if lazy != owned {
+            fails.push("bed.lazy.differs", format!("{via} line #{i}: lazy accessors {}, owned record built from them {}", show_seen(lazy), show_seen(owned)));
+        }
+    }
+}
+
+fn show_seen(s: &BedSeen) -> String {
+    format!(
+        "{{chrom {:?} start {} end {:?} name {:?} score {:?} strand {:?} other {:?}}}",
+        bs(&s.chrom),
+        s.start,
+        s.end,
+        s.name.as_ref().map(|n| n.as_ref().map(|x| bs(x))),
+        s.score,
+        s.strand,
+        s.other.iter().map(|x| bs(x)).collect::<Vec<_>>()
+    )
+}
+
+fn bed_check(c: &BedCase) -> Verdict {
+    let mut fails = Fails::new();
+    match c.doc.write_with_noodles() {
+        Err(e) => fails.push("bed.write.error", format!("bed::io::Writer<{}> rejects {:?}: {e}", c.doc.n, c.doc.records.iter().map(|r| r.canonical_text(c.doc.n)).collect::<Vec<_>>())),
+        Ok(bytes) => {
+            // the byte form is defined by the column list (tab separated, LF)
+            let want: Vec<u8> = BedDoc { comments: vec![], ..c.doc.clone() }.render(false);
+            if bytes != want {
+                fails.push("bed.write.bytes", format!("bed::io::Writer<{}> wrote {:?}, columns are {:?}", c.doc.n, bs(&bytes[..bytes.len().min(300)]), bs(&want[..want.len().min(300)])));
+            }
+            bed_read_and_compare("noodles-written", c, &bytes, &mut fails);
+            // the shared transcript helper must agree with the model's canonical text
+            if fails.is_empty() {
+                let (t, e) = text::bed_read_transcript(c.doc.n, &bytes[..]);
+                let want: Vec<String> = c.doc.records.iter().map(|r| r.canonical_text(c.doc.n)).collect();
+                if e.is_some() || t != want {
+                    fails.push("c18.harness.transcript", format!("bed_read_transcript = {t:?} / {e:?}, canonical texts {want:?}"));
+                }
+            }
+        }
+    }
+    let text = c.doc.render(c.crlf);
+    bed_read_and_compare("harness-rendered", c, &text, &mut fails);
+
+    let recs = &c.doc.records;
+    let pass = Pass::new(recs.iter().any(|r| !r.other.is_empty()) || c.doc.n >= 4, key_of(c))
+        .label(match c.doc.n {
+            3 => "BED3",
+            4 => "BED4",
+            5 => "BED5",
+            _ => "BED6",
+        })
+        .label_if(c.read_n < c.doc.n, "read-at-lower-arity")
+        .label_if(recs.iter().any(|r| !r.other.is_empty()), "other-fields")
+        .label_if(c.doc.n == 6 && recs.iter().any(|r| r.other.len() == 6), "BED12")
+        .label_if(recs.iter().any(|r| r.other.iter().any(|v| matches!(v, text::BedValue::Str(s) if s.is_empty()))), "other-empty-string")
+        .label_if(recs.iter().any(|r| r.other.iter().any(|v| !matches!(v, text::BedValue::Str(_)))), "other-typed-value")
+        .label_if(recs.iter().any(|r| r.end.is_none()), "end-missing")
+        .label_if(c.doc.n >= 4 && recs.iter().any(|r| r.name.is_none()), "name-missing")
+        .label_if(c.doc.n >= 6 && recs.iter().any(|r| r.strand.is_none()), "strand-missing")
+        .label_if(c.doc.n >= 5 && recs.iter().any(|r| r.score > 1000), "score>1000")
+        .label_if(recs.iter().any(|r| r.start > u32::MAX as u64), "position>2^32")
+        .label_if(!c.doc.comments.is_empty(), "comment-lines")
+        .label_if(c.crlf, "crlf")
+        .label_if(c.cap != 0 && c.cap <= 3, "cap<=3");
+    fails.finish(pass.label("passed-without-known-finding"))
+}
 
 pub fn property() -> Property {
-    Property { id: "C18", level: "exploration", rule: "", assumptions: vec![], subs: vec![], max_parallel: 16 }
+    Property {
+        id: "C18",
+        level: "exploration",
+        rule: "GFF3 documents (records with arbitrary UTF-8 / reserved characters in seqid, attribute tags and values, 0..5 attributes × 1..4 ordered values, all strands/phases/finite scores incl. missing, typed and free directives, comments), GTF documents (values with quotes, backslashes, `;`, spaces; repeated keys), BED3..BED6 documents with 0..8 further columns incl. BED12 — each written by noodles and, independently, rendered by the harness from the format rules; read back owned and lazily",
+        assumptions: vec![
+            "the harness's own GFF3/GTF/BED renderers (gen/text.rs) follow the format rules they cite".into(),
+            "attribute tag order is not asserted (the owned attribute map's equality ignores it); value order inside an attribute is".into(),
+            "values no format can carry are not generated: BED name `.`, GTF seqid starting with `#`, non-finite scores, tab/CR/LF in raw columns".into(),
+        ],
+        subs: vec![
+            sub("gff3", "non-trivial = an attribute tag/value with a reserved character (tab LF CR ; = & , %) or a multi-valued attribute; distinct by hash of the case", gff_strategy, gff_check, 80_000, 1_500_000).boxed(),
+            sub("gtf", "non-trivial = a value with a backslash or quote, or a repeated key; distinct by hash of the case", gtf_strategy, gtf_check, 80_000, 1_500_000).boxed(),
+            sub("bed", "non-trivial = ≥4 standard fields or ≥1 further column; distinct by hash of the case", bed_strategy, bed_check, 80_000, 1_500_000).boxed(),
+        ],
+        max_parallel: 16,
+    }
 }
